@@ -356,10 +356,16 @@ class Node:
                 return default is None
 
             if value_node.tag == 'tag:yaml.org,2002:int':
-                return int(value_node.value) == int(default)
+                return bool(
+                        isinstance(default, (int, float)) and
+                        _scalar_constructor.construct_yaml_int(value_node)
+                        == default)
 
             if value_node.tag == 'tag:yaml.org,2002:float':
-                return float(value_node.value) == float(default)
+                return bool(
+                        isinstance(default, (int, float)) and
+                        _scalar_constructor.construct_yaml_float(value_node)
+                        == default)
 
             if value_node.tag == 'tag:yaml.org,2002:bool':
                 if default is False:
